@@ -18,7 +18,7 @@ META = dict(
     level_text='Theorems in coq/Properties/Properties_C20.v state, for all event sequences and all timestamps, that the model of time_log_t (clock_in, clock_out, clock_out_from_timelog, the --day-break loop, close) posts for each closed session exactly t_out - t_in seconds on the check-in day to the check-in account; that under --day-break the pieces are the non-empty intersections of the session with the calendar days it touches (contiguous, boundaries at midnights, consecutive dates, telescoping to t_out - t_in, no empty piece for a check-out at midnight); that an account total is the sum of its sessions with or without --day-break; that a line fails exactly in the three stated cases; and that the scaled quantity a report shows (s -> m -> h -> units declared with C directives), times the factors of the units walked, is the number of seconds exactly (the display then rounds it). The model is tied to the code by running thousands of generated time-clock files (1-60 events, 1-4 accounts, midnights, month ends, leap days, interleaved sessions, every malformed kind; bare or inside apply account blocks - nested, around only some of the lines -, under --master-account, with included time-clock files, apply tag / apply year / year / alias directives) through freshly built ledger and the extracted model and comparing every register row, error line, error class and exit status, and the reported (scaled) figures of reg and bal - unit reached, exact quantity, printed text - with the unit walk of the model and display rounding; the oracle converts every figure shown back to seconds with the factors the journal declares.',
     level_note='Trusted: Coq kernel; extraction + OCaml driver and the python harness for the correspondence; boost ptime/gregorian arithmetic is modelled as integer seconds with day = t div 86400 (validated against python datetime by the correspondence); the fixed-column reading of i/o lines (textual.cc:467-523) is glue: a line that ends after the timestamp is a check-in to the account named "" or a check-out with no account (NULL); the harness joins master account, enclosing apply account arguments and the written name into the full name the model receives, and a regenerated table (Gen/ClockAccount.v, theorem clock_lines_resolve_alike) checks that both directives resolve the name with top_account(); an included file is a journal of its own (own time_log_t) whose rows the harness splices in at the include line.',
     design_ref='DESIGN.md section 7 C20',
-    assumptions=['timestamps are well-formed `YYYY/MM/DD HH:MM:SS` between 1990 and 2060',
+    assumptions=['timestamps are well-formed `YYYY/MM/DD HH:MM:SS` between 1990 and 2060; one stream writes an hour below 10 with one digit (`9:00:00`, which the date parser accepts): the account is then read from column 22 on all the same and loses its first letter (F221; the column cut is glue of the harness, text_read)',
                  'account names and descriptions are plain words (no double spaces, tabs, `;` or `|`)',
                  'units above hours are declared as `C 1.00<unit> = <n><unit below>` (one larger unit per smaller one); commodity_t::time_colon_by_default is off',
                  '--now is given (a date: the close of still-open sessions happens at its midnight whatever year directives the file leaves open; an included file is closed at the clock of its include line, which is 31 December of a year / apply year directive open there in the including file)',
@@ -37,7 +37,7 @@ ANCHORS = [datetime(2020, 2, 28, 20, 0, 0), datetime(2020, 2, 29, 23, 59, 0), da
 FMT = ('%(date)|%(account)|%(verif_rational(amount))|%(payee)|%(code)|%(cleared)|%(checkin)|%(checkout)'
        '|%(beg_line)|%(virtual)|%(filename)'
        '|%(scrub(display_amount))|%(verif_rational(scrub(display_amount)))|%(scrub(display_total))|%(verif_rational(scrub(display_total)))\\n')
-BAL_FMT = ('A|%(account)|%(scrub(display_total))|%(verif_rational(scrub(display_total)))\\n'
+BAL_FMT = ('A|%(account)|%(scrub(display_total))|%(verif_rational(scrub(display_total)))|%(subcount)\\n'
            '%/T|%(scrub(display_total))|%(verif_rational(scrub(display_total)))\\n%/S\\n')
 # units a journal may put above hours: (label, factor from the unit below, decimals it is declared with, directive)
 UNIT_SETS = [
@@ -306,9 +306,27 @@ def lay_out(rng, events, fancy, children=(), yeardir=None):
     return lines
 
 
+def narrow_applies(e):
+    """the line writes its hour with one digit (`9:00:00`): its timestamp is 18 columns wide, not 19"""
+    return bool(e.get('narrow')) and e['t'] % DAY < 36000
+
+
+def text_read(e):
+    """what clock_in_directive / clock_out_directive take for the account: the text from column 22 on
+    (textual.cc: `string datetime(line, 2, 19)`, `skip_ws(line + 22)`), whatever the width of the timestamp -
+    after an 18-column timestamp that is the written name without its first character"""
+    w = e.get('written', e['acct'])
+    if w is not None and narrow_applies(e):
+        return w[1:]
+    return w
+
+
 def event_text(e):
     c = e['kind'].upper() if e['cap'] else e['kind']
-    s = '%s %s' % (c, stamp(e['t']))
+    st = stamp(e['t'])
+    if narrow_applies(e):
+        st = st[:11] + st[12:]
+    s = '%s %s' % (c, st)
     w = e.get('written', e['acct'])
     if w is not None:
         s += ' ' + w
@@ -387,7 +405,7 @@ def resolve(case):
                 one(l['child'], l['file'], top, cid)
             elif k == 'ev':
                 e = l['e']
-                w = e.get('written', e['acct'])
+                w = text_read(e)
                 if w is None:
                     acct = join(top, '').encode() if e['kind'] == 'i' else 'none'
                     if e['kind'] == 'i' and top:
@@ -501,7 +519,8 @@ def run_impl(path, now, db, master=None):
 
 
 def run_bal(path, now, db, master=None):
-    """`bal --flat --empty`: -> (status, [(account, shown text, exact unreduced value)], total (text, exact) or None)"""
+    """`bal --flat --empty`: -> (status, [(account, shown text, exact unreduced value)], total (text, exact) or None,
+    {account: %(subcount), the number of postings the account itself holds})"""
     args = ['-f', path, 'bal', '--flat', '--empty', '--now', (EPOCH + timedelta(seconds=now)).strftime('%Y/%m/%d'), '--format', BAL_FMT]
     if db:
         args.append('--day-break')
@@ -521,14 +540,15 @@ def run_bal(path, now, db, master=None):
             time.sleep(2)
             continue
         break
-    accts, total = [], None
+    accts, total, held = [], None, {}
     for l in out.decode('utf-8', 'replace').split('\n'):
         f = l.split('|')
-        if f[0] == 'A' and len(f) == 4:
+        if f[0] == 'A' and len(f) == 5:
             accts.append((f[1], f[2], f[3]))
+            held[f[1]] = int(f[4]) if re.fullmatch(r'-?\d+', f[4]) else None
         elif f[0] == 'T' and len(f) == 3:
             total = (f[1], f[2])
-    return st, accts, total
+    return st, accts, total, held
 
 
 def exact_of(x):
@@ -608,7 +628,7 @@ def impl_canon(r, insts):
 
 
 # ---- oracle: the property text on what ledger printed ----------------------------------------------
-EV_RE = re.compile(r'([ioIO]) (\d{4}/\d\d/\d\d \d\d:\d\d:\d\d)(?: (.*?))?(?:  (.*))?$')
+EV_RE = re.compile(r'([ioIO]) (\d{4}/\d\d/\d\d \d?\d:\d\d:\d\d)(?: (.*?))?(?:  (.*))?$')
 
 
 def read_files(files, main, master):
@@ -652,6 +672,9 @@ def read_files(files, main, master):
         toks.append(('end', fname))
     walk(main, master or '')
     return toks, has_year[0]
+
+
+NARROW_RE = re.compile(r'[ioIO] \d{4}/\d\d/\d\d \d:\d\d:\d\d( |$)')
 
 
 def oracle(files, main, master, now_s, r, db, bal=None):
@@ -843,10 +866,30 @@ def oracle(files, main, master, now_s, r, db, bal=None):
         for a in want:
             if want[a] and a not in shown:
                 viol.append(('reported:bal-missing', 'bal does not list %s' % a, str(sorted(shown)), a))
+        # "produces ONE posting to that account" (one per calendar day touched under --day-break): the number of
+        # postings an account holds, as bal's %(subcount) (and `stats`, %(count), %(account.count)) reports it, is the
+        # number of postings its sessions produced - one per session, or one per day touched.  The rows of each
+        # session were counted above; here the account's own count is read.
+        given = {}
+        for a, tin, tout, fi, lin in sessions:
+            given[a] = given.get(a, 0) + (len(by_line.get((fi, lin), [])) if db else 1)
+        for a, tin, fi, lin in still:
+            given[a] = given.get(a, 0) + (len(by_line.get((fi, lin), [])) if db else 1)
+        for a in sorted(given):
+            h = bal[3].get(a)
+            if h is None or h == given[a]:
+                continue
+            kind = 'each-posting-held-twice' if h == 2 * given[a] else 'other'
+            viol.append(('posting-count:' + kind, 'the sessions of %s produce %d posting(s); the account holds %d (bal %%(subcount); stats and %%(count) count the same list)'
+                         % (a, given[a], h), h, given[a]))
+            break
     known = {(fi, lin) for _, _, _, fi, lin in sessions} | {(fi, lin) for _, _, fi, lin in still}
     for key in by_line:
         if key not in known:
             viol.append(('posting-without-session', 'a posting is attributed to %s line %d, which opens no session' % key, str(by_line[key])[:200], 'none'))
+    # the class of the input: a line whose timestamp is not 19 columns wide (an hour written with one digit)
+    if viol and any(NARROW_RE.match(l) for f_ in files for l in files[f_].split('\n')):
+        viol = [('narrow-timestamp:' + k_, d_ + ' [the file has an i/o line with a one-digit hour]', o_, q_) for k_, d_, o_, q_ in viol]
     return viol, notes
 
 
@@ -972,6 +1015,23 @@ def dress(rng, case, plain=False):
     return case
 
 
+def gen_narrow(rng):
+    """sequential sessions (never two open at once) whose check-in lines - and some check-out lines - write
+    an hour below 10 with one digit, as ledger's date parser accepts it: `i 2021/06/01 9:00:00 Work:A`"""
+    accts = rng.sample([a for a in ACCOUNTS if len(a) >= 2 and a[1].isalnum()], rng.choice([1, 2]))
+    t = secs(datetime(rng.randrange(1995, 2050), rng.randrange(1, 13), rng.randrange(1, 29))) + rng.randrange(0, 36000)
+    events = []
+    for _ in range(rng.choice([1, 1, 2, 3])):
+        a = rng.choice(accts)
+        events.append(dict(kind='i', t=t, cap=False, acct=a, desc=rng.choice(PAYEES), narrow=True))
+        t += rng.choice([1, 59, 600, 3600, 7200, DAY, DAY + 5])
+        events.append(dict(kind='o', t=t, cap=rng.random() < 0.2, acct=rng.choice([None, a]), desc='', narrow=rng.random() < 0.5))
+        t = (t // DAY + 1) * DAY + rng.randrange(0, 36000)
+    if rng.random() < 0.2:
+        events.pop()                 # the last session stays open: closed at --now
+    return dict(events=events, now=(t // DAY + 1) * DAY, units=[])
+
+
 def gen_blocks_directed(rng):
     """time-clock lines directly inside `apply account` blocks: one session, interleaved sessions, a session
     checked in inside a block and out outside it (and the reverse), nested blocks, an included file"""
@@ -1042,6 +1102,8 @@ def run(ctx, n_override=None):
             c = gen_case(rng, long=True, small=rng.random() < 0.5)     # sessions of days: the totals reach the units above hours
             c['units'] = rng.choice(UNIT_SETS)
             cases.append(('u', dress(rng, c, plain=rng.random() < 0.5)))
+        elif k < 0.33:
+            cases.append(('n', dress(rng, gen_narrow(rng), plain=True)))
         elif k < 0.62:
             cases.append(('v', dress(rng, gen_case(rng))))
         else:
@@ -1061,6 +1123,7 @@ def run(ctx, n_override=None):
     shrunk = set()
     mpos = 0
     reported = []         # (case text, chain, [(what, seconds, text shown, exact shown)]) for the second model batch
+    held_cmp = []         # (case, [(account, register rows of the account, %(subcount) of bal)]) for the third model batch
     for i, (tag, case, files, main, insts) in enumerate(prepared):
         if hangs >= 3:
             res.notes.append('stopped after 3 runs that did not terminate within 10 s and again within 90 s')
@@ -1087,7 +1150,7 @@ def run(ctx, n_override=None):
             res.evaluations += 1
             res.traces += 1
             nev = sum(len(x['evs']) for x in insts)
-            res.count('kind:' + {'d': 'directed', 'b': 'directed-blocks', 'u': 'long-sessions-with-units', 'v': 'valid', 'm': 'malformed-stream'}[tag])
+            res.count('kind:' + {'d': 'directed', 'b': 'directed-blocks', 'n': 'one-digit-hour', 'u': 'long-sessions-with-units', 'v': 'valid', 'm': 'malformed-stream'}[tag])
             res.count('events:%s' % ('1-2' if nev < 3 else '3-10' if nev <= 10 else '11-30' if nev <= 30 else '31+'))
             for f in features(case, insts, rm):
                 res.count(f)
@@ -1109,6 +1172,11 @@ def run(ctx, n_override=None):
                     per[w['acct']] = per.get(w['acct'], 0) + w['secs']
                     items.append(('reg amount', w['secs'], w['da'], exact_of(w['dax'])))
                     items.append(('reg running total', run_total, w['dt'], exact_of(w['dtx'])))
+                nrows = {}
+                for w in r['rows']:
+                    nrows[w['acct']] = nrows.get(w['acct'], 0) + 1
+                held_cmp.append((dict(files=files, main=main, now=case['now'], master=case.get('master'), day_break=bool(db)),
+                                 [(a, nrows.get(a, 0), bal[3].get(a)) for a, _, _ in bal[1]]))
                 if bal[0] != 0 or sorted(a for a, _, _ in bal[1]) != sorted(per):
                     res.disagreements.append(dict(name='C20/bal-accounts', case=dict(files=files, main=main, now=case['now'], master=case.get('master'), day_break=bool(db)),
                                                   impl='status %s, accounts %s' % (bal[0], sorted(a for a, _, _ in bal[1])), model=str(sorted(per))))
@@ -1167,6 +1235,20 @@ def run(ctx, n_override=None):
                 bad += 1
                 res.disagreements.append(dict(name='C20/reported-time', case=cs, impl='%s of %d s: %s (%s)' % (what, secs_, txt, ex),
                                               model='%s (%s)' % (mtxt, mex)))
+    # the postings each account holds (bal %(subcount)) against the model's held_of_rows of its register rows
+    ns = sorted({n_ for _, items in held_cmp for _, n_, _ in items})
+    held_model = {}
+    if ns:
+        for n_, l in zip(ns, lib.run_model('C20', ['(held h%d %d)' % (n_, n_) for n_ in ns])):
+            held_model[n_] = int(l.split(' H ', 1)[1])
+    bad = 0
+    for cs, items in held_cmp:
+        for a, n_, h in items:
+            res.count('accounts-with-posting-count')
+            if h != held_model[n_] and bad < 20:
+                bad += 1
+                res.disagreements.append(dict(name='C20/postings-held', case=cs, impl='%s holds %s postings (bal %%(subcount))' % (a, h),
+                                              model='%d (register rows of the account: %d)' % (held_model[n_], n_)))
     for nt, c in sorted(noted.items()):
         res.notes.append('%s [%d runs]' % (nt, c))
     return res
@@ -1197,7 +1279,7 @@ def replay(ctx, obj):
         print('replay: required %s, observed before %s' % (obj.get('required'), obj.get('observed')))
         bal = run_bal(ctx.path(main), case['now'], db, case.get('master')) if r['status'] == 0 else None
         if bal:
-            print('replay: bal %s total %s' % (bal[1], bal[2]))
+            print('replay: bal %s total %s postings held %s' % (bal[1], bal[2], bal[3]))
         viol, _ = oracle(files, main, case.get('master'), case['now'], r, db, bal)
         for key, desc, obs, req in viol:
             if key == obj.get('key'):
